@@ -304,6 +304,53 @@ def _optclass(x, hang=False):
         return str(x)
 
 
+def paren_check(ctx, exe, sc):
+    """tie of ParenBool.lean: every operator pattern of up to 5 operators over {comparison, &&/||, assignment} as an `if` condition,
+    formatted with mod_full_paren_if_bool=true; the parentheses uncrustify adds must be those of the model `addParens true`"""
+    import itertools
+    ops = {"c": ["==", "<", "!="], "b": ["&&", "||"], "e": ["=", "+="]}
+    cases = []
+    for n in range(0, 6):
+        for pat in itertools.product("cbe", repeat=n):
+            cases.append("a" + "".join(o + "a" for o in pat))
+    cfg = sc.cfg(None, {"mod_full_paren_if_bool": "true"})
+    rng = ctx.rng
+    jobs = []
+    for pat in cases:
+        k = 0
+        parts = []
+        for ch in pat:
+            if ch == "a":
+                k += 1
+                parts.append("v%d" % k)
+            else:
+                parts.append(rng.choice(ops[ch]))
+        txt = "void f(void)\n{\n   if (%s)\n   {\n      g();\n   }\n}\n" % " ".join(parts)
+        jobs.append(pipeline.Job("paren:" + pat, cfg, sc.write(txt, ".c"), "C", {"pat": pat, "text": txt}))
+    pipeline.run_jobs(exe, jobs, hooks=False)
+    ans = common.run_driver(["parenbool.run 1 " + j.meta["pat"] for j in jobs])
+    bad = 0
+    for j, a in zip(jobs, ans):
+        ctx.case(j.name)
+        if j.res["rc"] != 0:
+            continue
+        out = j.res["out"].decode("latin1")
+        m = re.search(r"if\s*\((.*)\)\s*\{", out, re.S)
+        if not m:
+            continue
+        got = ""
+        for t in re.findall(r"v\d+|==|!=|\+=|&&|\|\||<|=|\(|\)", m.group(1)):
+            got += ("a" if t[0] == "v" else "c" if t in ("==", "<", "!=") else "b" if t in ("&&", "||") else "e" if t in ("=", "+=") else t)
+        if got != a:
+            bad += 1
+            if bad <= 3:
+                ctx.violation("check_bool_parens(): condition pattern %s comes out as %s, the model addParens gives %s" % (j.meta["pat"], got, a),
+                              {"input_text": j.meta["text"], "options": {"mod_full_paren_if_bool": "true"}, "output": out}, key=None,
+                              found_input="e" in got[got.find("("):got.find(")") + 1] if "(" in got else False)
+    ctx.oblige("tie: parentheses added by check_bool_parens() = model addParens (ParenBool.lean) on all %d operator patterns of length <= 5" % len(cases),
+               bad == 0, "corr", "%d mismatches" % bad)
+
+
 def run(ctx):
     ctx.cov["rule"] = ("one case = (generated compilable program, configuration): uncrustify must exit 0 and the output must compile (gcc/g++/javac, "
                        "same flags) to the same object bytes as the input; configuration = defaults, one option singly at an enumerated/boundary "
@@ -314,6 +361,8 @@ def run(ctx):
     ctx.assumptions += ["object-code equality itself is searched, not proved: no compiler model (DESIGN.md 6/C01, 10)",
                         "debug_*, lexer-redefining and file-inserting options excluded as the property says; configurations refused with status 78 are skipped"]
     ctx.lean_obligations()
+    common.lean_extra(ctx, "UncModel.Props.ParenBool", ["addParens_erase", "addParens_groups", "addParens_fixed_no_assign_in_group",
+                                                         "old_changes_meaning_witness", "fixed_same_meaning_upto5"], namespace="Unc.PB")
     exe = common.build_repo(hooks=True)
     thorough = ctx.tier == "thorough"
     rng = ctx.rng
@@ -323,6 +372,7 @@ def run(ctx):
     sc = pipeline.Scratch("c01")
     try:
         skeleton_check(ctx, exe, sc, thorough)
+        paren_check(ctx, exe, sc)
         progs = []
         for i in range(36 if thorough else 14):
             lang = "C" if i % 3 == 0 else ("CPP" if i % 3 == 1 else "C")
